@@ -97,19 +97,30 @@ type seatRun struct {
 	joined int
 	pid    int
 	// C08 deal-in watch
-	emptyAtAssign  []bool
-	watchSeat      int
-	watchPassed    bool
-	justArmed      bool
-	movedSinceNext bool // somebody joined, left, reserved or sat in since positions were assigned
-	engine         bool // integration step: hand the positions to the engine
-	r              *rand.Rand
+	emptyAtAssign     []bool
+	watchSeat         int
+	watchPassed       bool
+	justArmed         bool
+	touched           []int  // seats touched by join/leave/reserve/sit-in since positions were assigned
+	closedAfterAssign []bool // seats the last assignment left inactive
+	engine            bool   // integration step: hand the positions to the engine
+	r                 *rand.Rand
 }
 
 func (s *seatRun) fail(rule, cause, msg string) {
 	s.rep.Violate(&Violation{Prop: s.prop, Rule: rule, Cause: cause, Msg: msg, Kind: "seats",
 		Case: &SeatCase{Max: s.max, Text: strings.Join(s.trace, " ")}, Seed: s.seed, CaseIndex: s.idx})
 	s.failed = true
+}
+
+// onlyTouched: no seat other than x has been joined, left, reserved or sat in since the last assignment
+func (s *seatRun) onlyTouched(x int) bool {
+	for _, t := range s.touched {
+		if t != x {
+			return false
+		}
+	}
+	return true
 }
 
 func dealerID(m *sm.SeatManager) int {
@@ -190,7 +201,14 @@ func (s *seatRun) apply(op SeatOp) {
 	}
 	s.justArmed = false
 	if op.Kind != 'N' {
-		s.movedSinceNext = true
+		t := op.Seat
+		if op.Kind == 'J' && op.Seat == -1 {
+			t = sid
+			if err != nil {
+				t = -1
+			}
+		}
+		s.touched = append(s.touched, t)
 	}
 	if s.props["C18"] {
 		s.rep.Inc("oracle_evaluations")
@@ -307,9 +325,12 @@ func (s *seatRun) onJoin(op SeatOp, pre, post []seatView, sid int, err error) {
 	}
 	// C08 deal-in watch: armed when a player takes a seat strictly between dealer and big blind
 	// that was empty when the current positions were assigned
-	if s.props["C08"] && err == nil && op.Seat >= 0 && s.emptyAtAssign != nil && !s.movedSinceNext {
+	// (a seat is "closed" when the last assignment left it inactive: empty seats between dealer and
+	// big blind, and seats whose waiting occupant has not been passed by the button yet), and nobody
+	// has touched any other seat since then
+	if s.props["C08"] && err == nil && op.Seat >= 0 && s.closedAfterAssign != nil && s.onlyTouched(sid) {
 		d, b := s.m.Dealer(), s.m.BigBlind()
-		if d != nil && b != nil && strictlyBetween(d.ID, sid, b.ID, s.max) && s.emptyAtAssign[sid] {
+		if d != nil && b != nil && strictlyBetween(d.ID, sid, b.ID, s.max) && (s.closedAfterAssign[sid] || s.emptyAtAssign[sid]) && !pre[sid].occ {
 			s.watchSeat = sid
 			s.watchPassed = false
 			s.justArmed = true
@@ -486,7 +507,11 @@ func (s *seatRun) onNext(pre, post []seatView, prevD int, err error) {
 				}
 			}
 		}
-		s.movedSinceNext = false
+		s.touched = s.touched[:0]
+		s.closedAfterAssign = make([]bool, s.max)
+		for i, v := range post {
+			s.closedAfterAssign[i] = !v.act
+		}
 		s.emptyAtAssign = make([]bool, s.max)
 		for i, v := range pre {
 			s.emptyAtAssign[i] = !v.occ
@@ -664,6 +689,16 @@ func runJoinBetween(s *seatRun, r *rand.Rand) {
 		return
 	}
 	x := cands[r.Intn(len(cands))]
+	switch r.Intn(6) {
+	case 0: // somebody tries the seat first and leaves again
+		s.apply(SeatOp{'J', x})
+		if r.Intn(2) == 0 {
+			s.apply(SeatOp{'S', x})
+		}
+		s.apply(SeatOp{'L', x})
+	case 1: // the seat is held for somebody first
+		s.apply(SeatOp{'R', x})
+	}
 	s.apply(SeatOp{'J', x})
 	s.apply(SeatOp{'S', x})
 	for h := 0; h < 2*max && !s.failed && s.watchSeat >= 0; h++ {
